@@ -19,9 +19,6 @@ from .common import listlit, strlit
 from .c11 import Net, gen_topo, mk_request, eqpt, line_elements, simple_paths_sites
 
 CUTOFF = 80
-# False = requests_aggregation of /repo as it is today (findings K2, K3); set to True together with the fix: commit
-# (same_disj compares group shapes, every group naming the old id is deleted): model aggregate_fixed in Model/Disjoint.v
-AGG_FIXED = False
 
 
 # ------------------------------------------------------------------ generator
@@ -65,7 +62,7 @@ def gen_batch(rng, N):
         loose = (['STRICT'] * len(nodes) if m < 0.45 else ['LOOSE'] * len(nodes) if m < 0.8
                  else [rng.choice(['STRICT', 'LOOSE']) for _ in nodes])
         rq = {'id': str(k), 'src': f'trx {a}', 'dst': f'trx {b}', 'nodes': nodes, 'loose': loose, 'style': style,
-              'mode': rng.choice(['mode 1', 'mode 1', 'mode 1', None]), 'bidir': False}
+              'mode': rng.choice(['mode 1', 'mode 1', 'mode 1', None]), 'bidir': rng.random() < 0.3}
         if k > 0 and rng.random() < 0.3:
             o = rng.choice(reqs)                               # a twin: candidate for aggregation
             rq.update(src=o['src'], dst=o['dst'])
@@ -73,6 +70,8 @@ def gen_batch(rng, N):
                 rq.update(nodes=list(o['nodes']), loose=list(o['loose']), style=o['style'])
                 if rng.random() < 0.8:
                     rq['mode'] = o['mode']
+                if rng.random() < 0.8:
+                    rq['bidir'] = o['bidir']
         reqs.append(rq)
     ids = [r['id'] for r in reqs]
     groups = []
@@ -90,7 +89,13 @@ def gen_batch(rng, N):
         def plain(k, s, t):
             return {'id': str(k), 'src': f'trx {s}', 'dst': f'trx {t}', 'nodes': [], 'loose': [], 'style': 'none',
                     'mode': 'mode 1', 'bidir': False}
-        if rng.random() < 0.5:
+        v = rng.random()
+        if v < 0.35:
+            # same shape: the twins 1 and 2 are merged, their groups follow the merged request
+            reqs = [plain(0, *others[0]), plain(1, a, b), plain(2, a, b), plain(3, *others[1])]
+            gl = rng.choice([[['0', '1'], ['0', '2']], [['1', '0', '3'], ['3', '2', '0']],
+                             [['0', '1'], ['3', '1'], ['2', '0'], ['2', '3']]])
+        elif v < 0.7:
             reqs = [plain(0, *others[0]), plain(1, a, b), plain(2, a, b), plain(3, *others[1])]
             gl = [['3', '1'], ['0', '1'], ['0', '3', '2']]
         else:
@@ -189,7 +194,7 @@ def coq_term(N, reqs, groups, obs):
     sigs = {}
     rqs = []
     for r, (nodes, loose) in zip(reqs, obs['clean']):
-        key = (r['src'], r['dst'], r['mode'], tuple(nodes), tuple(loose))
+        key = (r['src'], r['dst'], bool(r.get('bidir')), r['mode'], tuple(nodes), tuple(loose))
         sg = sigs.setdefault(key, len(sigs))
         rqs.append(f'(mkD {r["id"]} {N.id[r["src"]]} {N.id[r["dst"]]} {zl([N.id[u] for u in nodes])} '
                    f'{"true" if "STRICT" in loose else "false"} {sg} {"true" if r["mode"] is not None else "false"})')
@@ -200,7 +205,7 @@ def coq_term(N, reqs, groups, obs):
         o = 'DError'
     else:
         o = 'DOther'
-    return (f'run_dis {"true" if AGG_FIXED else "false"} {N.coq_graph()} {N.coq_kinds()} {N.coq_oms()} {CUTOFF}%nat {listlit(rqs)} {listlit(declared)} '
+    return (f'run_dis {N.coq_graph()} {N.coq_kinds()} {N.coq_oms()} {CUTOFF}%nat {listlit(rqs)} {listlit(declared)} '
             f'{zl(obs["dedup"])} {listlit([rid_lit(i) for i in obs["ids"]])} '
             f'{listlit([grp_lit(g, m) for g, m in obs["groups"]])} {o}')
 
@@ -260,29 +265,6 @@ def judge(ctx, N, case, reqs, groups, obs, line):
         ctx.count('outcome_exception')
         flags['exc'] = obs.get('exc', '')
         ctx.violation('exception', f'{obs.get("exc")} (neither paths nor DisjunctionError)', case, flags=flags)
-
-
-def match_k1(v):
-    """STRICT include that is a line element not right after a ROADM: step 4 tests it against the short list"""
-    fl = v.get('flags', {})
-    return v['key'] == 'missed_disjoint_pair' and fl.get('strict_nonshort') is True
-
-
-def match_k2(v):
-    """aggregation deleted the group that declared the pair; the pruning honoured the groups it was given"""
-    fl = v.get('flags', {})
-    return v['key'] == 'overlap' and fl.get('aggregated') and fl.get('cov_obs') == 'F' and fl.get('okfinal') == 'T'
-
-
-def match_k3(v):
-    """aggregation left a group naming a request id that no longer exists -> KeyError in compute_path_dsjctn"""
-    fl = v.get('flags', {})
-    return (v['key'] == 'exception' and fl.get('aggregated') and fl.get('nostale_obs') == 'F'
-            and fl.get('exc', '').startswith('KeyError'))
-
-
-MATCHERS = {'strict-line-include-disjunction-error': match_k1, 'aggregation-drops-declared-pair': match_k2,
-            'aggregation-stale-group-keyerror': match_k3}
 
 
 # ------------------------------------------------------------------ run
@@ -376,4 +358,4 @@ def run(ctx):
         'completeness is judged for batches made of one pair group only (single_pair_errors); DisjunctionError on larger '
         'or overlapping groups is counted, not judged (the pruning is not claimed complete there)',
     ]
-    return common.finish(ctx, MATCHERS)
+    return common.finish(ctx)
